@@ -726,6 +726,17 @@ class Interp(object):
         c.memo[key] = (a, k)
         c.forced.append(('trunc', str(a)[:60], k))
         return k
+    # machine integers: a float -> int32 cast of a value outside the int32 range is implementation-defined (x86 gives
+    # INT_MIN).  If the case allows such an operand the code has no defined behaviour there.
+    big = z3.Or(a >= 2 ** 31, a < -(2 ** 31))
+    s.push()
+    s.add(big)
+    c.side_queries += 1
+    r = s.check()
+    s.pop()
+    if r == z3.sat:
+      raise sym.Undefined('float->int32 cast of %s which is not confined to the int32 range (overflow is implementation-defined)' % str(a)[:40],
+                          cond=big)
     # not forced: split the case on the truncation interval of some feasible value
     if s.check() == z3.sat:
       v = sym.z3_to_py(s.model().eval(a, model_completion=True))
